@@ -969,6 +969,14 @@ class Engine:
                 env = dict(env)
                 env[sname] = IntSet(new)
                 return [(env, path)]
+            if isinstance(itv, Opaque) and self.opaque_ok:
+                # loop over an unknown sequence: everything its body may assign becomes unconstrained (covers zero iterations as well)
+                env = dict(env)
+                for name in sorted(self.assigned_names(st.body) | self.target_names(st.target)):
+                    if name in env:
+                        env[name] = fresh_like(name, env[name])
+                self.opaque_log.append("loop over " + ast.unparse(it)[:60])
+                return [(env, path)]
             raise Unsupported("for over this iterable")
         nv = z3.simplify(n)
         if spec is None:
